@@ -73,7 +73,12 @@ class Group:
 
 
 def docs(ds, indent):
-    return "".join(f"{indent}#[doc = {json.dumps(d)}]\n" for d in ds)
+    """Doc attributes, one per comment line.  When there are several, another attribute stands between the first two
+    (as `#[serde(..)]` or `#[allow(..)]` often do in real code): it must not cut the documentation short."""
+    lines = [f"{indent}#[doc = {json.dumps(d)}]\n" for d in ds]
+    if len(lines) >= 2:
+        lines.insert(1, f"{indent}#[allow(dead_code)]\n")
+    return "".join(lines)
 
 
 def gen_struct(G, d, derive, out):
